@@ -65,6 +65,7 @@ type Contract struct {
 	Line      int
 	Opaque    bool
 	Atomic    bool
+	TimeoutS int
 	Notes     []string
 	ParamName []string // optional override of parameter names (extern)
 	Uses      []string // lemmas (proved elsewhere) assumed while verifying this function
@@ -430,6 +431,9 @@ func (db *SpecDB) LoadFile(path, pkgPath string) error {
 			cur.Atomic2 = append(cur.Atomic2, strings.Fields(rest)...)
 		case "note":
 			cur.Notes = append(cur.Notes, rest)
+		case "timeout":
+			// minimum solver budget (seconds) for the obligations of this function
+			fmt.Sscanf(rest, "%d", &cur.TimeoutS)
 		case "params":
 			cur.ParamName = strings.Fields(rest)
 		case "opaque":
